@@ -197,8 +197,8 @@ Theorem all_columns_reach_output_bounded :
       all_reach cols (p_mlp 2 layers cols 2 2 (seq 0 3)) &&
       all_reach cols (p_resnet 0 layers cols 2 2 (seq 0 3)) &&
       all_reach cols (p_resnet 2 layers cols 2 2 (seq 0 3)) &&
-      all_reach cols (p_tabnet layers cols 2 2 2 2 512 2 (seq 0 3)) &&
-      all_reach cols (p_tabnet layers cols 1 2 0 1 2 2 (seq 0 3)) &&
+      all_reach cols (p_tabnet layers cols 2 2 3 2 2 512 2 (seq 0 3)) &&
+      all_reach cols (p_tabnet layers cols 1 2 2 0 1 2 2 (seq 0 3)) &&
       all_reach cols (p_ft cols 2 2 (seq 0 3)) &&
       all_reach cols (p_tabt layers 2 cols 4 2 2 (seq 0 cols) [] (seq 0 3)) &&
       all_reach (cols + 2) (p_tabt layers 2 (cols + 2) 4 2 2 (seq 2 cols) [0; 1] (seq 0 3)) &&
